@@ -5,6 +5,7 @@ import (
 	"os"
 	"reflect"
 
+	"example.test/p1/conf"
 	"example.test/p1/leaf"
 	"example.test/p1/mid1"
 	"example.test/p1/mid2"
@@ -28,7 +29,7 @@ func main() {
 	t := reflect.TypeOf(local{})
 	fmt.Println(t.Name(), t.NumField(), t.Field(0).Name, t.Field(1).Type.Name())
 	p := leaf.Plain{Alpha: "abc", Beta: 4}
-	fmt.Println(p.Sum(), version, flavour, secretLiteral, mid1.Scramble(12), mid2.Limit())
+	fmt.Println(p.Sum(), version, flavour, secretLiteral, mid1.Scramble(12), mid2.Limit(), conf.Limit)
 	if len(os.Args) > 1 {
 		fmt.Println("args:", os.Args[1:])
 	}
